@@ -333,7 +333,7 @@ def _prefilter(tier):
     from inscripta.biocantor.gene.gene import GeneInterval
     from inscripta.biocantor.gene.transcript import TranscriptInterval
 
-    from harness.common import AND, PLUS
+    from harness.common import AND, OR, PLUS
     from vlib.sym import IFF
 
     def qfn(within, with_fc=True):
@@ -359,6 +359,33 @@ def _prefilter(tier):
 
         return fn
 
+    def qfn_members(within, kind):
+        """kind 'variant': one gene plus one variant collection anywhere (also far outside the gene's hull); kind 'sameguid': two genes that share one
+        (user-supplied) guid, anywhere: each member is judged on its own span"""
+        from inscripta.biocantor.gene.variants import VariantInterval, VariantIntervalCollection
+
+        def fn(s0, l0, vs, vl, hi, qs, qe):
+            g1 = GeneInterval([TranscriptInterval([s0], [s0 + l0], PLUS, guid=611)], guid=711)
+            if kind == "variant":
+                other = VariantIntervalCollection([VariantInterval(vs, vs + vl, "A", "indel", guid=612)], guid=712)
+                coll = AnnotationCollection(genes=[g1], variant_collections=[other], sequence_name="chr1", start=0, end=hi)
+            else:
+                other = GeneInterval([TranscriptInterval([vs], [vs + vl], PLUS, guid=613)], guid=711)
+                coll = AnnotationCollection(genes=[g1, other], sequence_name="chr1", start=0, end=hi)
+            try:
+                res = coll.query_by_position(qs, qe, completely_within=within)
+            except InvalidQueryError:
+                return False
+            got = list(res.iter_children())
+            conds = []
+            for (s, e) in ((s0, s0 + l0), (vs, vs + vl)):
+                want = AND(qs <= s, e <= qe) if within else AND(s < qe, qs < e)
+                present = OR(*[AND(c.start == s, c.end == e) for c in got]) if got else False
+                conds.append(IFF(present, want))
+            return AND(*conds)
+
+        return fn
+
     out = []
     pre = lambda s0, l0, g, l1, fs, fl, hi, qs, qe: (s0 >= 0 and l0 >= 1 and g >= 1 and l1 >= 1 and fs >= 0 and fl >= 1 and s0 + l0 + g + l1 <= hi  # noqa: E731
                                                      and fs + fl <= hi and 0 <= qs and qs < qe and qe <= hi)
@@ -375,6 +402,20 @@ def _prefilter(tier):
             lambda s0, l0, g, l1, fs, fl, hi, qs, qe: pre(s0, l0, g, l1, fs, fl, hi, qs, qe) and fs == 0 and fl == 1, budget=900, cost=120, stubs=dict(bins="smt"),
             examples=[dict(e, fs=0, fl=1) for e in exs], desc=desc % " is", bounds="1 gene with 2 single-exon isoforms, unbounded symbolic coordinates and query")
     out.extend(split_cubes(o, {"qs_le_gene": lambda **kw: kw["qs"] <= kw["s0"], "qe_ge_gene": lambda **kw: kw["qe"] >= kw["s0"] + kw["l0"] + kw["g"] + kw["l1"]}))
+    prem = lambda s0, l0, vs, vl, hi, qs, qe: (s0 >= 0 and l0 >= 1 and vs >= 0 and vl >= 1 and s0 + l0 <= hi and vs + vl <= hi and 0 <= qs and qs < qe and qe <= hi  # noqa: E731
+                                               and (vs != s0 or vl != l0))
+    PM = dict(s0=int, l0=int, vs=int, vl=int, hi=int, qs=int, qe=int)
+    exm = [dict(s0=1000, l0=500, vs=300000, vl=1, hi=900000, qs=500, qe=393216), dict(s0=100, l0=50, vs=400, vl=2, hi=1000, qs=90, qe=300)]
+    for kind in ("variant", "sameguid"):
+        for within in ((True,) if tier == "quick" else (True, False)):
+            o = Obl("prefilter_exact_bins_%s_%s" % ("strict" if within else "relaxed", kind), qfn_members(within, kind), dict(PM),
+                    (lambda kind: (lambda **kw: prem(**kw) and (kind != "variant" or (kw["vl"] <= 3 and (kw["vs"] + kw["vl"] <= kw["s0"] or kw["s0"] + kw["l0"] <= kw["vs"])))))(kind), budget=900, cost=150, stubs=dict(bins="smt"), examples=exm,
+                    desc="query_by_position with exact bins() semantics on a collection holding a gene and %s: each member is returned exactly when ITS span lies "
+                         "within / overlaps the query" % ("a variant collection lying anywhere (also far outside the hull of the genes)" if kind == "variant" else
+                                                          "a second gene carrying the SAME user-supplied guid, lying anywhere"),
+                    bounds="2 members, unbounded symbolic coordinates and query")
+            out.extend(split_cubes(o, {"q_holds_first": lambda **kw: kw["qs"] <= kw["s0"] and kw["s0"] + kw["l0"] <= kw["qe"],
+                                       "q_holds_second": lambda **kw: kw["qs"] <= kw["vs"] and kw["vs"] + kw["vl"] <= kw["qe"]}))
     if tier == "quick":
         # the straddling situation (query strictly inside the gene's span, feature collection starting after the gene): one cube of the thorough obligation
         o = Obl("prefilter_exact_bins_strict_straddle", qfn(True), dict(P),
